@@ -9,6 +9,7 @@
 #include <optional>
 #include <span>
 #include <string>
+#include <string_view>
 #include <unordered_map>
 #include <vector>
 
@@ -23,6 +24,12 @@ std::size_t max_control_stream_bytes();
 
 // Sets the control-plane stream ceiling; pass 0 to disable the limit entirely.
 void set_max_control_stream_bytes(std::size_t bytes);
+
+// Response values travel on one KEY:VALUE line each. Line breaks and backslashes inside a value are
+// escaped by the daemon ("\n", "\r", "\\") and restored by the client, so multi-line values
+// (chunk listings, advertised endpoints, bootstrap nodes, warnings) arrive intact.
+std::string escape_control_value(std::string_view value);
+std::string unescape_control_value(std::string_view value);
 
 struct ControlResponse {
     bool success{false};
